@@ -94,6 +94,33 @@ theorem isValid_spec (bs : List UInt8) :
   have := isValidLoop_spec _ hb (bs.map UInt8.toNat).length 0 (bs.map UInt8.toNat).length (by omega) (by omega)
   simpa [isValid] using this
 
+/-- the `String` overloads `fromString(const String&)` / `isValid(const String&)` are the pointer forms applied
+    to the C-string view of the value (the chars followed by the terminator) with `len = length()`: for EVERY
+    value they return what the pointer form returns on the exact range, and they never read outside the view -
+    in fact never the terminator - so every theorem about the pointer forms holds for them -/
+theorem string_overloads (s : List Nat) :
+    fromStringS s = fromString s s.length ∧ isValidS s = isValid s s.length ∧
+      fromStringS s ≠ .oob ∧ isValidS s ≠ .oob := by
+  have e1 : fromStringS s = fromString s s.length := fromString_append s [0] s.length (Nat.le_refl _)
+  have e2 : isValidS s = isValid s s.length := isValid_append s [0] s.length (Nat.le_refl _)
+  exact ⟨e1, e2, by rw [e1]; exact fromString_no_oob s s.length (Nat.le_refl _),
+    by rw [e2]; exact isValid_no_oob s s.length (Nat.le_refl _)⟩
+
+/-- `toString(const uint32*, usize)` is `append(data, size, str)` on an empty string: for valid code points the
+    concatenated RFC 3629 encodings (see `isValid_encoded`), and the String round trip of one code point -/
+theorem string_forms_roundtrip (cp : Nat) (h : cp < 0x110000) :
+    toStringArr [cp] = toString cp ∧ fromStringS (toString cp) = .ok cp ∧ isValidS (toString cp) = .ok true := by
+  have ha : toStringArr [cp] = toString cp := by
+    unfold toStringArr
+    rw [(isValid_encoded [cp] (by simpa using h)).1, utf8_agrees cp h]
+    simp
+  refine ⟨ha, ?_, ?_⟩
+  · rw [(string_overloads _).1]; exact utf8_roundtrip cp h
+  · rw [(string_overloads _).2.1]
+    have := (isValid_encoded [cp] (by simpa using h)).2
+    rw [show (appendAll [cp]).2 = toStringArr [cp] from rfl, ha] at this
+    exact this
+
 /- non-vacuity / the model does fault when a read leaves the range -/
 example : fromString [0xE2, 0x82, 0xAC] 3 = .ok 0x20AC := by decide
 example : fromString [0xE2, 0x82] 3 = .oob := by decide          -- a caller lying about the length faults
@@ -132,8 +159,9 @@ theorem base64_decodes_rfc4648 (bs : List UInt8) :
   exact x.toNat_lt
 
 /-- For EVERY input (arbitrary bytes, arbitrary length) `fromBase64` reads its decode table only at
-    indices below the table size and accesses `out[j]` only inside the bytes it reserved
-    (`result.reserve(E)`, `E` taken from the source).  (This is defect D26: with the signed comparison
+    indices below the table size, accesses `out[j]` only inside the bytes it reserved
+    (`result.reserve(E)`, `E` taken from the source) and ends with `j` inside them, so that `result.resize(j)`
+    stays in place (the model faults otherwise).  (This is defect D26: with the signed comparison
     `in[i] > 'z'` bytes >= 0x80 pass the generated per-byte tests and this theorem does not check.) -/
 theorem base64_no_oob (inp : List UInt8) : fromBase64 (inp.map UInt8.toNat) ≠ .oob := by
   obtain ⟨r, hr⟩ := fromBase64_ok _ (bytes_lt inp)
